@@ -16,5 +16,8 @@ Emit ==
           PrintT(<<"VEC", ToJson([l |-> d, enc |-> e, want |-> MapDatum(d)])>>)
     \* lovelace / asset quantities (u64_to_bigint): the harness puts them into an output's value
     /\ \A c \in U64s \cup {Pow2(32), Pow2(62)} : PrintT(<<"VEC", ToJson([coin |-> IntV(c), want |-> MapU64(c)])>>)
+    \* mint amounts (i64_to_bigint): the whole signed 64-bit range
+    /\ \A m \in {MaxI64, MinI64, One, Neg(One), Pow2(32), Neg(Pow2(62))} :
+          PrintT(<<"VEC", ToJson([mint |-> IntV(m), want |-> IntV(m)])>>)
 ASSUME Emit
 =============================================================================
